@@ -478,13 +478,22 @@ fn stalled_client(report: &Report) {
             crate::common::machinery_failure(&format!("c06.stalled_client: GET {uri} answered {}", resp.status()));
         }
         produce();
-        // now read: everything that is there, until the body stays silent
+        let truth: Vec<u64> = fx.truth_all().unwrap_or_default().iter().filter(|e| e.stream_id() == stream_id).map(|e| e.seq).collect();
+        // now read: until everything that was produced has arrived (or 30 s have passed - the
+        // oracle must not depend on how fast this machine drains a body), then a little longer
+        // for anything that should not be there
         let mut body = resp.into_body();
         let mut buf = String::new();
         let mut got: Vec<u64> = Vec::new();
+        let started = std::time::Instant::now();
         rt.block_on(async {
             loop {
-                match tokio::time::timeout(std::time::Duration::from_millis(300), http_body_util::BodyExt::frame(&mut body)).await {
+                let complete = got.len() >= truth.len();
+                let patience = if complete { std::time::Duration::from_millis(300) } else { std::time::Duration::from_secs(30).saturating_sub(started.elapsed()) };
+                if patience.is_zero() {
+                    break;
+                }
+                match tokio::time::timeout(patience, http_body_util::BodyExt::frame(&mut body)).await {
                     Ok(Some(Ok(frame))) => {
                         if let Ok(data) = frame.into_data() {
                             buf.push_str(&String::from_utf8_lossy(&data));
@@ -507,7 +516,6 @@ fn stalled_client(report: &Report) {
                 }
             }
         });
-        let truth: Vec<u64> = fx.truth_all().unwrap_or_default().iter().filter(|e| e.stream_id() == stream_id).map(|e| e.seq).collect();
         report.eval(Some(&("stalled_client", kind)));
         report.count("stalled_client_frames_expected", truth.len() as u64);
         if truth.len() < N {
